@@ -77,10 +77,12 @@ class CombinedModel(darsia.Model):
                 parameters_cache = parameters_cache[model.num_parameters :]
         else:
             # Analogously when only a subset of parameters is to be updated
+            # Each degree of freedom (model position, parameter name) consumes
+            # exactly one entry of the parameter array.
             for pos_model, pos_parameter in dofs:
                 model = self.models[pos_model]
-                model.update_model_parameters(parameters_cache, pos_parameter)
-                parameters_cache = parameters_cache[model.num_parameters :]
+                model.update_model_parameters(parameters_cache[:1], [pos_parameter])
+                parameters_cache = parameters_cache[1:]
 
     def __getitem__(self, pos_model: int) -> darsia.Model:
         """Access single models.
